@@ -133,14 +133,16 @@ theorem contacts_never_panics (b : Buf) (o : Nat) (c : PContacts) (hfit : b.size
     ((parseAllContactValues b o c).2.1 = .moreBytes →
       CtSafe b (parseAllContactValues b o c).1 (parseAllContactValues b o c).2.2) ∧
     ((parseAllContactValues b o c).2.1 = .ok →
-      CtIdle b (parseAllContactValues b o c).2.2 ∧ (parseAllContactValues b o c).1 ≤ b.size) ∧
+      CtIdle b (parseAllContactValues b o c).2.2 ∧ (parseAllContactValues b o c).1 ≤ b.size ∧
+      CtIn b (parseAllContactValues b o c).1 (parseAllContactValues b o c).2.2) ∧
     (parseAllContactValues b o c).1 ≤ b.size := parseAllContactValues_safe b o c hfit h
 
 theorem pais_never_panics (b : Buf) (o : Nat) (c : PPAIs) (hfit : b.size ≤ 65535) (h : PaSafe b o c) :
     PaOut b (parseAllPAIValues b o c).2.2 ∧
     ((parseAllPAIValues b o c).2.1 = .moreBytes → PaSafe b (parseAllPAIValues b o c).1 (parseAllPAIValues b o c).2.2) ∧
     ((parseAllPAIValues b o c).2.1 = .ok →
-      PaIdle b (parseAllPAIValues b o c).2.2 ∧ (parseAllPAIValues b o c).1 ≤ b.size) ∧
+      PaIdle b (parseAllPAIValues b o c).2.2 ∧ (parseAllPAIValues b o c).1 ≤ b.size ∧
+      PaIn b (parseAllPAIValues b o c).1 (parseAllPAIValues b o c).2.2) ∧
     (parseAllPAIValues b o c).1 ≤ b.size := parseAllPAIValues_safe b o c hfit h
 
 theorem fline_never_panics (b : Buf) (o : Nat) (pl : PFLine) (hfit : b.size ≤ 65535) (h : FlSafe b o pl) :
